@@ -1,0 +1,9 @@
+//go:build verif
+
+package launch
+
+// VerifACLSetUser exposes ACL.setUser to the verification harness (/verif, property C35): it
+// installs a user's permission table directly, without going through the YAML import.
+func VerifACLSetUser(acl *ACL, user string, m map[ACLScope]ACLPerm) (prev map[ACLScope]ACLPerm, updated bool, _ error) {
+	return acl.setUser(user, m)
+}
